@@ -107,4 +107,3 @@ func runReplay(path string) int {
 }
 
 func runSelftest(args []string) int { return runSelftestReal(args) }
-
